@@ -1,82 +1,7 @@
 --------------------------------- MODULE GenRules ---------------------------------
-(* Mechanism A for C02: TLC enumerates scalar examples carrying rule sets (families on,   *)
-(* just inside and just outside every boundary) and the probe documents, and prints per   *)
-(* schema the verdict vector Sem!ScalarVerdict demands (0 reject, 1 accept, 2 unspecified). *)
-EXTENDS Integers, Sequences, FiniteSets, TLC, Json, SequencesExt, Sem, Tables
-CONSTANT Level
-
-R(n, v) == [n |-> n, v |-> v]
-BV(b) == [t |-> "bool", bv |-> b]
-NV(b) == [t |-> "num", b |-> b]
-IdV(s) == [t |-> "id", s |-> s]
-Null == [t |-> "null"]
-NumD(b) == [t |-> "num", b |-> b]
-StrD(c) == [t |-> "str", c |-> c]
-BoolD(b) == [t |-> "bool", bv |-> b]
-Lit(v, rules) == [t |-> "lit", v |-> v, rules |-> rules]
-
-\* ---- probes ----
-FormatProbes == Emails \cup Uris \cup Uuids \cup Dates \cup DateTimes
-Docs == {NumD(b) : b \in NumProbes} \cup {StrD(c) : c \in StrProbes \cup FormatProbes}
-        \cup {Null, BoolD(TRUE), BoolD(FALSE), [t |-> "arr", items |-> <<>>], [t |-> "obj", ps |-> <<>>]}
-DocSeq == SetToSeq(Docs)
-
-\* ---- rule-set families ----
-Opt(S) == {<<>>} \cup {<<x>> : x \in S}                   \* zero or one of S, as a sequence
-NullableOpts == Opt({R("nullable", BV(TRUE)), R("nullable", BV(FALSE))})
-ExMin == Opt({R("exclusiveMinimum", BV(TRUE)), R("exclusiveMinimum", BV(FALSE))})
-ExMax == Opt({R("exclusiveMaximum", BV(TRUE)), R("exclusiveMaximum", BV(FALSE))})
-LessEq(a, b) == N!Cmp(N!NF(a), N!NF(b)) <= 0
-NumRuleSets ==
-     {<<R("min", NV(b))>> \o e \o n : b \in Bounds, e \in ExMin, n \in NullableOpts}
-\cup {<<R("max", NV(b))>> \o e \o n : b \in Bounds, e \in ExMax, n \in NullableOpts}
-\cup {<<R("min", NV(p[1])), R("max", NV(p[2]))>> \o e1 \o e2 : p \in {q \in Bounds \X Bounds : LessEq(q[1], q[2])},
-         e1 \in Opt({R("exclusiveMinimum", BV(TRUE))}), e2 \in Opt({R("exclusiveMaximum", BV(TRUE))})}
-\cup {<<R("nullable", BV(TRUE)), R("max", NV(b)), R("min", NV(a))>> : a \in {Nm1, N0}, b \in {N1, N10}}
-DecimalRuleSets ==
-     {<<R("type", IdV("decimal")), R("precision", NV(p))>> \o x \o n : p \in {N1, N2, N3},
-         x \in Opt({R("min", NV(N0)), R("max", NV(N1_5))}), n \in Opt({R("nullable", BV(TRUE))})}
-NumExamples == {Nm1, N0, N0_5, N1, N1_5, N10, N1_0, N0_1, N100, N1_25, N2, N5}
-StrLenRuleSets ==
-     {<<R("minLength", NV(a))>> \o n : a \in {N0, N1, N2, N3}, n \in NullableOpts}
-\cup {<<R("maxLength", NV(a))>> \o n : a \in {N0, N1, N2, N3}, n \in NullableOpts}
-\cup {<<R("minLength", NV(p[1])), R("maxLength", NV(p[2]))>> : p \in {q \in {N0, N1, N2, N3} \X {N0, N1, N2, N3} : LessEq(q[1], q[2])}}
-StrExamples == {Sempty, Sa, Sab, Sabc, Sabcd, Sb, Sac, Sxaby}
-Chr(c) == [t |-> "chr", c |-> c]
-Cat(a, b) == [t |-> "cat", a |-> a, b |-> b]
-Regexes == { Cat([t |-> "bol"], Cat(Chr(97), Chr(98))),                                    \* ^ab
-             Cat(Chr(98), [t |-> "eol"]),                                                  \* b$
-             Cat([t |-> "bol"], Cat([t |-> "plus", a |-> Chr(97)], Cat([t |-> "opt", a |-> Chr(98)], [t |-> "eol"]))),   \* ^a+b?$
-             [t |-> "plus", a |-> [t |-> "set", cs |-> 48..57, neg |-> FALSE]],            \* [0-9]+
-             [t |-> "alt", a |-> Chr(97), b |-> Cat(Chr(98), Chr(99))],                    \* a|bc
-             Cat([t |-> "bol"], [t |-> "eol"]),                                            \* ^$
-             Cat(Chr(97), Cat([t |-> "any"], Chr(99))),                                    \* a.c
-             Cat([t |-> "bol"], Cat([t |-> "star", a |-> [t |-> "set", cs |-> {97}, neg |-> TRUE]], [t |-> "eol"])),     \* ^[^a]*$
-             Cat(Chr(97), Cat(Chr(46), Chr(99))) }                                         \* a\.c
-RegexRuleSets == {<<R("regex", [t |-> "re", re |-> re])>> \o n : re \in Regexes, n \in Opt({R("nullable", BV(TRUE))})}
-FormatRuleSets == {<<R("type", IdV(f))>> \o n : f \in Formats, n \in Opt({R("nullable", BV(TRUE))})}
-FormatExample(f) == CASE f = "email" -> SEmail [] f = "uri" -> SUri [] f = "uuid" -> SUuid [] f = "date" -> SDate [] f = "datetime" -> SDateTime
-EV(v) == [t |-> "val", v |-> v]
-EnumLists == { <<EV(NumD(N1)), EV(NumD(N2_5)), EV(StrD(Sa))>>, <<EV(StrD(S1)), EV(BoolD(TRUE)), EV(Null)>>,
-               <<EV(NumD(N1_0))>>, <<EV(StrD(Sa)), EV(StrD(Sb))>>, <<EV(BoolD(FALSE)), EV(NumD(N0))>> }
-ConstSets == {<<R("const", BV(b))>> \o n : b \in BOOLEAN, n \in NullableOpts}
-PlainTypes == { Lit(NumD(N1), <<R("type", IdV("integer"))>>), Lit(NumD(N1_5), <<R("type", IdV("float"))>>),
-                Lit(StrD(Sa), <<R("type", IdV("string"))>>), Lit(BoolD(TRUE), <<R("type", IdV("boolean"))>>),
-                Lit(Null, <<R("type", IdV("null"))>>), Lit(NumD(N1), <<>>), Lit(NumD(N1_5), <<>>), Lit(StrD(Sa), <<>>),
-                Lit(BoolD(FALSE), <<>>), Lit(Null, <<>>), Lit(NumD(N1), <<R("nullable", BV(TRUE))>>) }
-
-\* an example that obeys its own rules (Check demands it); both an integer and a float example where possible
-Obeys(v, rs) == ScalarVerdict(Lit(v, rs), v, <<>>) = "accept"
-WithExamples(RS, Ex, mk(_)) == UNION {{Lit(mk(e), rs) : e \in {x \in Ex : Obeys(mk(x), rs)}} : rs \in RS}
-Pick2(S) == IF Cardinality(S) <= 2 THEN S ELSE LET a == CHOOSE x \in S : TRUE IN {a, CHOOSE x \in S \ {a} : TRUE}
-NumSchemas == UNION {Pick2({Lit(NumD(e), rs) : e \in {x \in NumExamples : Obeys(NumD(x), rs) /\ (HasDot(x) \/ Level = 2)}})
-                        \cup Pick2({Lit(NumD(e), rs) : e \in {x \in NumExamples : Obeys(NumD(x), rs) /\ ~HasDot(x)}}) : rs \in NumRuleSets}
-DecSchemas == UNION {Pick2({Lit(NumD(e), rs) : e \in {x \in NumExamples : Obeys(NumD(x), rs) /\ HasDot(x)}}) : rs \in DecimalRuleSets}
-StrSchemas == UNION {Pick2({Lit(StrD(e), rs) : e \in {x \in StrExamples : Obeys(StrD(x), rs)}}) : rs \in StrLenRuleSets \cup RegexRuleSets}
-FmtSchemas == {Lit(StrD(FormatExample(rs[1].v.s)), rs) : rs \in FormatRuleSets}
-EnumSchemas == UNION {{Lit(l[i].v, <<R("enum", [t |-> "list", items |-> l])>> \o n) : i \in DOMAIN l, n \in NullableOpts} : l \in EnumLists}
-ConstSchemas == {Lit(v, rs) : v \in {NumD(N1), NumD(N1_5), StrD(Sa), BoolD(TRUE), Null, NumD(N1_0)}, rs \in ConstSets}
-Schemas == NumSchemas \cup DecSchemas \cup StrSchemas \cup FmtSchemas \cup EnumSchemas \cup ConstSchemas \cup PlainTypes
+(* Mechanism A for C02: verdict vectors of the scalar rule-set families (RuleFamilies.tla)  *)
+(* over the probe documents: 0 reject, 1 accept, 2 unspecified.                              *)
+EXTENDS RuleFamilies
 
 VARIABLE sch
 Init == sch \in Schemas
